@@ -39,6 +39,7 @@ structure Inv (s : State) : Prop where
   usedBound : ∀ k ∈ s.used, k ≤ s.npipes
   held : ∀ k ∈ s.heldDetached, k ∈ s.used ∧ k ∉ s.pipes.map (·.k)
   att : ∀ k ∈ s.attaching, hookOf s k = ["attaching"] ∧ k ∈ s.used ∧ k ∉ s.pipes.map (·.k) ∧ k ∉ s.heldDetached
+  attOne : s.attaching.length ≤ 1
 
 theorem hookOf_append (s : State) (k k' : Nat) (ev : String) (h : s.hooklog = l) :
     ((l ++ [(k', ev)]).filter (fun e => e.1 == k)).map (·.2) =
@@ -82,6 +83,7 @@ theorem inv_of_fields (s s' : State) (h : Inv s) (h1 : s'.pipes = s.pipes) (h2 :
   · rw [h2, h3]; exact h.usedBound
   · rw [h5, h2, h1]; exact h.held
   · rw [h6, h2, h1, h5]; intro k hk; rw [hh]; exact h.att k hk
+  · rw [h6]; exact h.attOne
 
 theorem setDialer_inv (s : State) (d : Nat) (f : DialerSt → DialerSt) (h : Inv s) : Inv (setDialer s d f) :=
   inv_of_fields s _ h rfl rfl rfl rfl rfl rfl
@@ -142,6 +144,7 @@ theorem addPipe_rejected_inv (s : State) (h : Inv s) (extra : State → State)
     · intro k hk
       obtain ⟨a1, a2, a3, a4⟩ := h.att k hk
       exact ⟨by rw [hne k (h.usedBound k a2)]; exact a1, a2, a3, a4⟩
+    · exact h.attOne
   exact inv_of_fields t _ ht e1 e2 e3 e4 e5 e6
 
 end Core
@@ -231,6 +234,7 @@ theorem attachedState_inv (s : State) (d : Option Nat) (h : Inv s) : Inv (attach
     · rw [hext]; simp only [List.filter, this, List.map_nil, List.append_nil]; exact a1
     · simp only [attachedState, List.map_append, List.map_cons, List.map_nil, List.mem_append, List.mem_singleton, not_or]
       exact ⟨a3, hne⟩
+  · exact h.attOne
 
 theorem addPipe_inv (s : State) (d : Option Nat) (mode : String) (h : Inv s) : Inv (addPipe s d mode).1 := by
   unfold addPipe
@@ -332,6 +336,7 @@ theorem closePipe_inv (s : State) (k : Nat) (h : Inv s) : Inv (closePipe s k).1 
           exact a3 (List.mem_map.mpr ⟨q, hq, rfl⟩)
         · simp only [detachedLog, List.mem_append, List.mem_singleton, not_or]
           exact ⟨a4, hne⟩
+      · exact h.attOne
     · have c := common { detachedLog s k with used := s.used.erase k } rfl rfl rfl
       obtain ⟨c1, c2, c3, c4⟩ := c
       constructor
@@ -360,6 +365,7 @@ theorem closePipe_inv (s : State) (k : Nat) (h : Inv s) : Inv (closePipe s k).1 
           simp only [detachedLog, List.mem_map, List.mem_filter] at hm
           obtain ⟨q, ⟨hq, _⟩, rfl⟩ := hm
           exact a3 (List.mem_map.mpr ⟨q, hq, rfl⟩)
+      · exact h.attOne
 
 end Core
 end Model
@@ -401,6 +407,7 @@ theorem hookrelease_inv (s : State) (h : Inv s) :
     cases hc : s.heldDetached.contains j with
     | false => rfl
     | true => exact absurd (by simpa using hc) a4
+  · exact h.attOne
 
 theorem redial_inv (s : State) (d : Nat) (h : Inv s) : Inv (redial s d).1 := by
   unfold redial
@@ -480,6 +487,7 @@ theorem hookpark_inv (s : State) (h : Inv s) :
       simp [List.filter_append, hk0, List.filter]
     · intro hm; obtain ⟨p, hp, hpk⟩ := List.mem_map.mp hm; exact hfresh (hpk ▸ (h.listed p hp).2)
     · intro hm; exact hfresh (h.held _ hm).1
+  · simp
 
 theorem attachrelease_closed_inv (s : State) (h : Inv s) (k : Nat) (hk : s.attaching = [k]) :
     Inv { s with used := s.used.erase k, attaching := [], attachClosed := false } := by
@@ -498,6 +506,7 @@ theorem attachrelease_closed_inv (s : State) (h : Inv s) (k : Nat) (hk : s.attac
     have hne : j ≠ k := by intro e; exact a4 (e ▸ hj)
     exact ⟨(List.mem_erase_of_ne hne).mpr h1, h2⟩
   · intro j hj; simp at hj
+  · simp
 
 theorem attachrelease_ok_inv (s : State) (h : Inv s) (k : Nat) (hk : s.attaching = [k]) :
     Inv { s with pipes := s.pipes ++ [{ k := k, dialer := none, added := true, closed := false }],
@@ -546,6 +555,7 @@ theorem attachrelease_ok_inv (s : State) (h : Inv s) (k : Nat) (hk : s.attaching
     simp only [List.map_append, List.map_cons, List.map_nil, List.mem_append, List.mem_singleton, not_or]
     exact ⟨h2, fun e => a4 (e ▸ hj)⟩
   · intro j hj; simp at hj
+  · simp
 
 theorem core_inv (s : State) (now : Nat) (op : List String) (h : Inv s) : ∀ r ∈ core s now op, Inv r.1 := by
   intro r hr
